@@ -239,6 +239,35 @@ def run_history(seq):
                     if res["range"] != sorted(written) or res["latest"] != [max(written)]:
                         bad({"class": "range_after_write", "reader": kind, "session": sess}, "after a write by a later session (%s): %s reader born %s range %s latest %s, written %s" % (
                             sess, kind, born, res["range"], res["latest"], sorted(written)))
+        # ---- a back-filled sample: the writer accepts an index below everything written so far (it lands in the file
+        #      that is currently the oldest); once that call returns, earlier readers and new ones include it
+        if written:
+            k = min(written) - 1
+            try:
+                mdw.write(k, {"v": int(k % 100000), "txt": "t%d" % k})
+                ok_ = True
+            except Exception:  # noqa: BLE001
+                ok_ = False  # a writer that refuses the call has written nothing (checked by the passes below)
+            if ok_:
+                written[k] = int(k % 100000)
+            part["transitions"] += 1
+            part["outcomes"]["backfill %s" % ("accepted" if ok_ else "refused")] += 1
+            for kind, obj, born in list(readers) + [("md", drf.DigitalMetadataReader(mdir), "fresh"), ("rf", drf.DigitalRFReader(top), "fresh")]:
+                res = query_pass(kind, obj, len(seq), "%s born %s after a back-filled sample" % (kind, born))
+                if res is None:
+                    continue
+                age = "old" if born != "fresh" else "fresh"
+                if kind == "md" and res["bounds"] != (min(written), max(written)):
+                    bad({"class": "bounds_after_write", "write": "backfill", "reader_age": age}, "after a back-filled sample %d: md reader born %s get_bounds %r, written %s" % (
+                        k, born, res["bounds"], sorted(written)))
+                if res["range"] != sorted(written) or res["latest"] != [max(written)]:
+                    bad({"class": "range_after_write", "reader": kind, "write": "backfill", "reader_age": age},
+                        "after a back-filled sample %d: %s reader born %s range %s latest %s, written %s" % (k, kind, born, res["range"], res["latest"], sorted(written)))
+                if kind == "md":
+                    ff = [int(x) for x in obj.read(k, k, method="ffill")] if ok_ else [k]
+                    if ff != [k]:
+                        bad({"class": "ffill_after_write", "write": "backfill", "reader_age": age},
+                            "after a back-filled sample %d: md reader born %s forward-fill read at it returned %s" % (k, born, ff))
         part["traces"] += 1
         part["nontrivial"].add(core.canon(seq))
         part["states"].add(core.canon((sorted(written), [r[0] for r in readers])))
